@@ -70,6 +70,7 @@ type Contract struct {
 	Properties []string
 	Trusted    bool
 	Inline     []string
+	Opaque     []string
 	StaleLoops []string
 	Uses       []string
 	Covers     []clause
@@ -269,6 +270,12 @@ func parseContractFile(path string, pkgPath string) ([]*Contract, []string, erro
 			cur.Properties = append(cur.Properties, strings.Fields(rest)...)
 		case "trusted":
 			cur.Trusted = true
+		case "opaque":
+			// interface methods whose dynamic calls are not resolved to the module's
+			// implementations in this verification (result arbitrary, assumed not to panic)
+			for _, m := range strings.Split(rest, ",") {
+				cur.Opaque = append(cur.Opaque, strings.TrimSpace(m))
+			}
 		case "uses":
 			// panic mode: calls of these functions use their ordinary (safety-verified) contracts
 			for _, m := range strings.Split(rest, ",") {
@@ -809,6 +816,12 @@ func genContract(g *genCtx, c *Contract, out *strings.Builder) error {
 					pre = append(pre, fmt.Sprintf("\tverifrt.Assume(specCallOK(%s))\n", n))
 				case "[]Object":
 					pre = append(pre, fmt.Sprintf("\tverifrt.Assume(specObjsOK(%s))\n", n))
+				case "ugo.Object":
+					pre = append(pre, fmt.Sprintf("\tverifrt.Assume(ugo.VerifObjOK(%s))\n", n))
+				case "ugo.Call":
+					pre = append(pre, fmt.Sprintf("\tverifrt.Assume(ugo.VerifCallOK(%s))\n", n))
+				case "ugo.Array":
+					pre = append(pre, fmt.Sprintf("\tverifrt.Assume(ugo.VerifObjsOK([]ugo.Object(%s)))\n", n))
 				}
 			}
 			continue
